@@ -1708,6 +1708,12 @@ class Builder:
             self.subrt_add_pending_commands(commands=pre_commands)
             return
 
+        if all(type(x) is int for x in (start, stop, step)) and step != 0:
+            # The loop below exits when the index *equals* stop. Move stop to the first index
+            # value outside range(start, stop, step), such that a step that does not divide
+            # the range, or an empty range, also terminates.
+            stop = start + len(range(start, stop, step)) * step
+
         entry_label = self._label_mgr.new_label(start_with="LOOP")
         exit_label = self._label_mgr.new_label(start_with="LOOP_EXIT")
 
